@@ -584,3 +584,10 @@ def x10(cx: Cx, ob: Ob) -> None:
     from ..rules import constructor_owns_records
 
     constructor_owns_records(cx, ob)
+
+
+@obligation("C05-X12", "def-use lints over the files this property is anchored in (api.py): no one-shot iterator (generator expression, map, filter, zip, iter, reversed, enumerate, generator call) bound to a name is consumed twice or inside a loop that starts after its creation; no mutable default argument is mutated, stored or returned", floor=1)
+def x12(cx: Cx, ob: Ob) -> None:
+    from ..rules import package_lints
+
+    package_lints(cx, ob, {'api.py'})
